@@ -177,6 +177,49 @@ def two_savers_law(crash_at: int, lost: int, a: bytes, b: bytes, buflimit: int) 
     return fail('crash_exposes_partial_destination', 'crash in %s: %r' % (crashed, content))
 
 
+def exit_law(fault_at: int, a: bytes, b: bytes, rm_part: bool, dest_exists: bool, text_mode: bool, buflimit: int) -> bool:
+    """
+    pre: len(a) <= 2 and len(b) <= 2
+    post: _
+    """
+    # "a with-block that exits normally always leaves the complete new content": also when an OS call failed on the way
+    # (one injected failure at any tick) - if no exception reaches the caller, the content must be complete and durable
+    fault_at = cz(fault_at, 0, 14)
+    buflimit = cz(buflimit, 1, 2)
+    rm_part = True if rm_part else False
+    dest_exists = True if dest_exists else False
+    text_mode = True if text_mode else False
+    fs = FakeFS(fault_at=(fault_at,), buflimit=buflimit)
+    FakeFS.NOFAULT = ('stat', 'lexists', 'unlink', 'fdopen', 'after')
+    if dest_exists:
+        fs.names[DEST] = Inode(0o640, OLD)
+    chunks = ['\xe9', 'ab'] if text_mode else [a, b]
+    new = ''.join(chunks).encode('utf-8') if text_mode else a + b
+    undo = fakeos.install(fu, fs)
+    exc = None
+    try:
+        try:
+            with fu.atomic_save(DEST, text_mode=text_mode, rm_part_on_exc=rm_part) as f:
+                for ch in chunks:
+                    f.write(ch)
+        except Exception as e:       # noqa - a reported failure is C05's business
+            exc = e
+    finally:
+        undo()
+        FakeFS.NOFAULT = ('stat', 'lexists')
+    if exc is not None:
+        return done(False, kind='raised')
+    ino = fs.names.get(DEST)
+    if ino is None or ino.kernel != new:
+        return fail('normal_exit_content', 'after a failed %s the with-block exited normally; destination holds %r, new content %r' % (
+            fs.faulted, None if ino is None else ino.kernel, new))
+    if fs.faulted:
+        cl = publication_ok(ino, new)
+        if cl:
+            return fail(cl, 'after a failed %s' % (fs.faulted,))
+    return done(True, kind='completed')
+
+
 def obligations(tier):
     obs = []
     q = tier == 'quick'
@@ -188,5 +231,6 @@ def obligations(tier):
         obs.append(Ob('crash_law', timeout=T, pins={'text': 1, 'nwrites': nw, 'part': 0}, need_kinds=kinds))
     for nw in (0, 2) if q else (0, 1, 2, 3):
         obs.append(Ob('crash_law', timeout=T, pins={'text': 0, 'nwrites': nw, 'part': 0, 'stale': 1}, need_kinds=kinds))
+    obs.append(Ob('exit_law', timeout=T, need_kinds=('completed',)))
     obs.append(Ob('two_savers_law', timeout=T, need_kinds=('completed', 'crash_second')))
     return obs
